@@ -17,12 +17,19 @@ GUARD = 1e-9   # variates closer than this to a decision boundary are never used
 
 
 def right_orthonormalise(cores):
-    """Own (oracle-side) right-orthonormalisation + normalisation via NumPy QR; cores are (r,2,1,r')."""
+    """Own (oracle-side) right-orthonormalisation + normalisation via NumPy QR; cores are (r,2,1,r').
+    Rank-1 bonds are normalised by a real factor only, so real product cores stay exactly real."""
     cores = [np.array(c, dtype=complex) for c in cores]
     d = len(cores)
     for i in range(d - 1, 0, -1):
         r, m, n, r2 = cores[i].shape
         a = cores[i].reshape(r, m * n * r2)
+        if r == 1:
+            nr = np.linalg.norm(a)
+            if nr > 0:
+                cores[i] = cores[i] / nr
+                cores[i - 1] = cores[i - 1] * nr
+                continue
         q, rr = np.linalg.qr(a.conj().T)       # a^H = q rr  ->  a = rr^H q^H
         k = q.shape[1]
         cores[i] = q.conj().T.reshape(k, m, n, r2)
@@ -44,6 +51,13 @@ def build_state(spec):
         cores = []
         for i in range(n):
             c = g.standard_normal((1, 2, 1, 1)) + 1j * g.standard_normal((1, 2, 1, 1))
+            cores.append(c)
+    elif kind == "mixed_product":   # some sites carry real amplitudes, some complex ones
+        cores = []
+        for i in range(n):
+            c = g.standard_normal((1, 2, 1, 1)).astype(complex)
+            if g.random() < 0.5:
+                c = c + 1j * g.standard_normal((1, 2, 1, 1))
             cores.append(c)
     elif kind == "basis":      # deterministic outcome: every conditional probability is exactly 0 or 1
         bits = g.integers(0, 2, size=n)
@@ -86,7 +100,12 @@ def build_state(spec):
             cores[0][0, 1, 0, 0] = 1.0
     else:
         raise ValueError(kind)
-    return right_orthonormalise(cores)
+    cores = right_orthonormalise(cores)
+    if spec.get("realify"):
+        # minimal-dtype storage: cores without an imaginary part are kept as real arrays (a train may legitimately
+        # mix real and complex cores)
+        cores = [np.ascontiguousarray(c.real) if np.all(c.imag == 0) else c for c in cores]
+    return cores
 
 
 def oracle_marginal(cores, measured_sorted):
@@ -192,7 +211,7 @@ class Run(object):
                     self.probes["sut_preparation_not_orthonormal_skipped"] += 1
                 else:
                     self.state = t
-                    self.cores = [np.array(c, dtype=complex) for c in t.cores]
+                    self.cores = [np.array(c) for c in t.cores]
                     self.probes["state_prepared_by_sut"] += 1
             self.snap = M.Snapshot(self.state)
             self.log.add("snap", self.snap.meta, arr_digest(self.snap.dense))
@@ -314,7 +333,7 @@ class Run(object):
         return "ok"
 
 
-KINDS = ("random", "random", "random", "product", "basis", "ghz", "w")
+KINDS = ("random", "random", "random", "product", "mixed_product", "basis", "ghz", "w")
 
 
 def swarm_config(seed):
@@ -326,7 +345,7 @@ def swarm_config(seed):
         "max_rank": rnd.choice((1, 2, 3, 4, 6) if deep else (1, 2, 3, 4)),
         "length": rnd.choice((1, 2, 3, 5)),
         "big_p": rnd.choice((0.0, 0.05, 0.2)),
-        "kinds": rnd.choice((KINDS, ("random",), ("ghz", "w", "basis"), ("product", "random"))),
+        "kinds": rnd.choice((KINDS, ("random",), ("ghz", "w", "basis"), ("product", "mixed_product", "random"))),
     }
 
 
@@ -342,7 +361,7 @@ def generate_and_run(seed, keep_events=False):
         kind = rnd.choice(cfg["kinds"])
         ranks = [1] + [rnd.randint(1, cfg["max_rank"]) for _ in range(n - 1)] + [1]
         rec = {"op": "state", "spec": {"n": n, "kind": kind, "ranks": ranks, "sub_seed": rnd.getrandbits(48),
-                                       "via_sut": rnd.random() < 0.4}}
+                                       "via_sut": rnd.random() < 0.4, "realify": rnd.random() < 0.4}}
         records.append(rec)
         run.step(rec)
         for _ in range(cfg["length"]):
